@@ -27,9 +27,8 @@ def setup():
 def _report():
     evals = [
         ("sigs", "map (fun f => (fq f, sb (sig_ok decls f))) (filter (relevant decls) pub_fns)"),
-        ("zst", "[(\"alloc_zst found\", sb zst_found); (\"body is a single if/else\", sb zst_single_if); "
-                "(\"then-branch returns Some\", sb zst_then_some); (\"else-branch returns None\", sb zst_else_none); "
-                "(\"guard is size_of == 0 && align_of <= MAX_ALIGN\", sb (zcond_canonical zst_cond)); "
+        ("zst", "[(\"alloc_zst found\", sb zst_found); "
+                "(\"the body (decision tree over its conditions) returns Some(..) exactly when size_of == 0 && align_of <= MAX_ALIGN\", sb (zbody_canonical zst_body)); "
                 "(\"anchor types are repr(align(N)) for Alignment<N>\", sb (aligned_types_ok aligned_types))]"),
         ("unsafe_gc_fns", "map (fun f => (fq f, \"unsafe\")) (filter (fun f => is_public_fn f && fs_unsafe f && returns_gc decls f) pub_fns)"),
         ("unsafe_metavars", "map (fun e => (fst (fst e) ++ \" $\" ++ snd (fst e) ++ \":\" ++ snd e, sb (metavar_harmless e))) unsafe_metavars"),
@@ -51,7 +50,7 @@ def run(chk, tier, seed):
     chk.checker_cmd = "translator-api -> coq_makefile/make Props/C19.vo + Print Assumptions; harness-api c19_twin; rustc on /verif/probes/c19"
     chk.trusted += [
         "Coq 8.16.1 kernel incl. vm_compute",
-        "translator-api (syn 2): public signatures, alias expansion tables, the alloc_zst guard expression; fails closed",
+        "translator-api (syn 2): public signatures, alias expansion tables, the control flow of alloc_zst as a decision tree (if/else, early return, let-bound pure sub-expressions substituted; the MEANING of the conditions is decided in Coq); fails closed",
         "PARAMETRICITY (not proved): a safe fn generic in X with no parameter supplying an X and no Default-like bound cannot return a pointer to an X it made",
         "harness-api/src/bin/c19_twin.rs (run-time twin), rustc as oracle for the probes",
         "the anchor allocation is aligned to MAX_ALIGN (C17_value_aligned, other component)",
